@@ -9,6 +9,7 @@ oracle : the published law of each (format, code), written here independently, e
 from __future__ import annotations
 
 import math
+import re
 import subprocess
 import sys
 from pathlib import Path
@@ -144,9 +145,9 @@ def run(argv):
     for fmt, code in cases():
         firsts = ["H"]
         if (fmt, code) in (("leeds", 4), ("uclchem", "PHOTON")):
-            firsts = ["H", "H2", "CO", "N2"]
+            firsts = ["H", "H2", "CO", "N2", "C", "O", "N", "CO2", "HCO", "H2O"]   # incl. names inside / around the shielded ones
         if (fmt, code) == ("leeds", 12):
-            firsts = ["GH", "GH2", "GCO", "GN2"]
+            firsts = ["GH", "GH2", "GCO", "GN2", "GC", "GO", "GCO2"]
         for first in firsts:
             try:
                 with silenced():
@@ -255,7 +256,7 @@ def oracle_eval(chk, rng, fmt, code, first, a, b, c, txt, case):
         env["lambdabar"] = 1000.0
         env["GetShieldingFactor"] = lambda *x: p["shield"]
         env["GetGrainScattering"] = lambda *x: p["scatter"]
-        for n in ("IDX_H2I", "IDX_COI", "IDX_N2I"):
+        for n in set(re.findall(r"IDX_\w+", txt if isinstance(txt, str) else "")) | {"IDX_H2I", "IDX_COI", "IDX_N2I"}:
             env[n] = 0.0
         try:
             got = ceval.ev(ast, env)
